@@ -353,6 +353,12 @@ static void run_c19(long cases) {
                 if (r.chance(1, 2)) { t = std::string(r.pick(PRE)) + "[::1]"; cls = "v6-text-before-bracket"; }
                 else { t = std::string("[::1]") + r.pick(POST); cls = "v6-text-after-bracket"; }
             }
+            if (r.chance(1, 5)) {   // arbitrary address-like text in front of a bracket pair with arbitrary content: whatever the pieces are, the whole is not a literal
+                static const char* PRE2[] = {":", "::", "x::", "1::", "::1", "a:b", "1:2:3:4:5:6:7", "f", "::ffff:1.2.3", "0", "[", "::[", "1.2.3"};
+                static const char* IN2[] = {"yy", "1", "::", "::1", "x", "1.2.3.4", "ab", "abc", "a:b:c", "::12", "0"};
+                t = std::string(r.pick(PRE2)) + (r.chance(1, 3) ? rnd_token(r, 0, 3, ":x1a") : std::string()) + "[" + (r.chance(1, 3) ? rnd_token(r, 1, 6, ":y1a.") : std::string(r.pick(IN2))) + "]";
+                cls = "v6-text-before-bracket";
+            }
             if (r.chance(1, 2)) t += ":" + std::to_string(r.range(1, 65535));
             c19_expect_reject(t, cls);
         } else if (kind == 8) {  // empty / colon-only
